@@ -976,8 +976,31 @@ func init() {
 	})
 }
 
-func ruleNUMVALID(c *Ctx) []Obligation {
-	var obs []Obligation
+func ruleNUMVALID(c *Ctx) (obs []Obligation) {
+	perSpaceFns := map[string][]string{}
+	// a space numbered by several routines (a validating one and a renumbering variant): the
+	// variant without any failing branch is fine as long as one routine validates
+	defer func() {
+		validated := map[string]bool{}
+		spaceOf := func(o Obligation) string {
+			for _, sp := range []string{"local", "global"} {
+				if strings.HasPrefix(o.Key, "numbering of "+sp+" IDs") {
+					return sp
+				}
+			}
+			return ""
+		}
+		for _, o := range obs {
+			if o.Verdict == OK {
+				validated[spaceOf(o)] = true
+			}
+		}
+		for i := range obs {
+			if obs[i].Verdict == UNDECIDED && obs[i].Detail == "no failing branch on the current ID found" && validated[spaceOf(obs[i])] {
+				obs[i].Verdict, obs[i].Detail = OK, "this routine re-derives the IDs from position without validating; another routine of the same ID space validates explicit IDs"
+			}
+		}
+	}()
 	info := c.pkg(pkgIR).TypesInfo
 	done := map[*ast.FuncDecl]bool{}
 	for _, sc := range c.setIDCalls() {
@@ -1005,6 +1028,10 @@ func ruleNUMVALID(c *Ctx) []Obligation {
 				return true
 			})
 			o := Obligation{Key: "numbering of " + space + " IDs rejects exactly the explicit IDs that differ from the position", Pos: c.pos(sc.fd.Pos()), Verdict: UNDECIDED, Detail: "no failing branch on the current ID found"}
+			perSpaceFns[space] = append(perSpaceFns[space], funcKey(sc.fn))
+			if k := len(perSpaceFns[space]); k > 1 {
+				o.Key += fmt.Sprintf(" (routine #%d: %s)", k, funcKey(sc.fn))
+			}
 			ast.Inspect(sc.fd.Body, func(nd ast.Node) bool {
 				is, ok := nd.(*ast.IfStmt)
 				if !ok || !(returnsError(info, is.Body.List) || endsInPanic(is.Body.List)) {
